@@ -153,9 +153,10 @@ del NOT_APPLICABLE['C20']
 PLAN['C11'] = {
     'level': 'proof',
     'technique': 'Verus total-mode proofs (every assert!/panic!/unwrap/index/overflow in alloc.rs, lru.rs, reg_tape.rs, simplify is an obligation); Kani full-domain totality harnesses for Interval operations; bounded native contract runner for the evaluators',
-    'level_text': 'Proved: the compiler core (register allocation for N in 3..=255, simplify) cannot panic on well-formed tapes; Interval select/round/add/sub/scale operations return normally on ALL valid intervals including infinite bounds and the NaN interval (Kani, complete). The evaluator loops, the remaining Interval arithmetic and the JIT are bounded stand-ins.',
+    'level_text': 'Proved: the compiler core (register allocation for N in 3..=255, simplify) cannot panic on well-formed tapes; Interval select/round operations return normally on ALL valid intervals including infinite bounds and the NaN interval (Kani, complete); add/sub/scale/neg are total on all valid intervals (Verus on the real text, under the float axioms: after the repair the obligation is monotonicity of one f32 operation, which CBMC cannot decide). The evaluator loops, the remaining Interval arithmetic and the JIT are bounded stand-ins.',
     'level_note': 'Trusted: Verus+Z3, Kani/CBMC. Not covered: stack exhaustion, allocation failure. Bounded only: interpreter/JIT evaluators on overflow grids, argument-error paths.',
-    'legs': [leg_verus('alloc'), leg_verus('simplify'), leg_kani('leaf'), leg_bounded('interp_interval'), leg_bounded('total'), leg_bounded('jit_interval_valid')],
+    'legs': [leg_verus('alloc'), leg_verus('simplify'), leg_verus('interval'), leg_kani('leaf'), leg_bounded('interp_interval'), leg_bounded('total'), leg_bounded('jit_interval_valid')],
+    'cex': ['total', 'interp_interval', 'alloc_cex', 'simplify_sem'],
     'explanation': 'Totality of the integer state machines is a corollary of their total-mode proofs; the genuine defect found here (Interval add/sub/scale panicking on NaN bounds) is repaired in /repo (fix: 081f714).',
     'assumptions': ['sqrt/square/recip/mul/div/trig totality of Interval: bounded leg only (CBMC models sqrtf/powi nondeterministically; one f32 division does not finish)'],
 }
@@ -164,9 +165,10 @@ del NOT_APPLICABLE['C11']
 PLAN['C03'] = {
     'level': 'proof',
     'technique': 'Kani full-domain harnesses for local interval enclosure of comparison/select operations; bounded native contract runner (interval interpreter vs reference point semantics) for arithmetic and transcendental operations',
-    'level_text': 'Proved for all intervals and all member points (Kani, bit-precise, loop-free): min, max, and, or, not, compare, abs, neg enclose the point result, with the NaN-interval convention. Arithmetic and transcendental operations, the interpreter dispatch and the JIT are bounded stand-ins on a stated grid.',
+    'level_text': 'Proved for all intervals and all member points (Kani, bit-precise, loop-free): min, max, and, or, not, compare, abs, neg enclose the point result, with the NaN-interval convention. Proved in Verus on the real text under the stated float axioms (monotone correctly-rounded + - *, NaN propagation, total order): Add, Sub, Mul<f32>, Neg are total on all valid intervals and enclose exactly (0 ulp). The remaining arithmetic and transcendental operations, the interpreter dispatch and the JIT are bounded stand-ins on a stated grid.',
     'level_note': 'Trusted: Kani/CBMC. Bounded only: add, sub, mul, div, square, sqrt, recip, floor/ceil/round, exp, ln, trig, atan2, rem_euclid, mix, rand; interpreter dispatch; JIT. Out of scope: wgsl shader.',
-    'legs': [leg_kani('leaf'), leg_bounded('interp_interval'), leg_bounded('jit_interval')],
+    'legs': [leg_kani('leaf'), leg_verus('interval'), leg_bounded('interp_interval'), leg_bounded('jit_interval')],
+    'cex': ['interp_interval'],
     'explanation': 'The local obligation per opcode is exactly the observation the property names: a in A, b in B => op(a,b) in OP(A,B) unless NaN.',
     'assumptions': ['monotonicity of correctly rounded f32 arithmetic and libm functions is exercised on a grid only'],
 }
